@@ -221,6 +221,18 @@ func (env *Env) binop(op token.Token, x, y Val, xt, yt, rt types.Type) Val {
 		env.fact(e.rangeAssume(t, rt))
 		return Val{T: t, S: rs}
 	case token.EQL, token.NEQ:
+		if x.Loc != nil {
+			x = env.materialize(x)
+		}
+		if y.Loc != nil {
+			y = env.materialize(y)
+		}
+		if x.Clo != nil {
+			x = Val{T: env.closureTerm(x.Clo), S: "Fn"}
+		}
+		if y.Clo != nil {
+			y = Val{T: env.closureTerm(y.Clo), S: "Fn"}
+		}
 		var t string
 		switch {
 		case x.S == "F64" || x.S == "F32":
@@ -508,7 +520,10 @@ func (env *Env) evalInstr(in ssa.Instruction, get func(ssa.Value) Val, st *State
 		case *types.Slice:
 			idx := fmt.Sprintf("(+ (s.off %s) %s)", x.T, i.T)
 			if _, ok := isStruct(xt.Elem()); ok {
-				return Val{T: fmt.Sprintf("(elemref (s.arr %s) %s)", x.T, idx), S: "Ref"}, true
+				// elemat(S, i) = elemref(arr S, off S + i): an uninterpreted symbol with the bound
+				// index as a direct argument gives the solvers a usable trigger
+				e.declPre("elemat", "(declare-fun elemat (ArrRef Int Int) Ref)\n(assert (forall ((a ArrRef) (o Int) (i Int)) (! (= (elemat a o i) (elemref a (+ o i))) :pattern ((elemat a o i)))))")
+				return Val{T: fmt.Sprintf("(elemat (s.arr %s) (s.off %s) %s)", x.T, x.T, i.T), S: "Ref"}, true
 			}
 			return Val{Loc: &Loc{Kind: LElem, Base: fmt.Sprintf("(s.arr %s)", x.T), Idx: idx, Heap: e.elemHeap(xt.Elem()), Typ: xt.Elem()}, S: "Ref"}, true
 		case *types.Pointer:
@@ -880,6 +895,19 @@ func (env *Env) ite(c string, a, b Val) Val {
 	if a.T == b.T {
 		return a
 	}
+	if a.S == "Bool" {
+		// keep Boolean structure readable for the solvers' trigger inference
+		switch {
+		case a.T == "true":
+			return Val{T: fmt.Sprintf("(or %s %s)", c, b.T), S: "Bool"}
+		case a.T == "false":
+			return Val{T: fmt.Sprintf("(and (not %s) %s)", c, b.T), S: "Bool"}
+		case b.T == "true":
+			return Val{T: fmt.Sprintf("(=> %s %s)", c, a.T), S: "Bool"}
+		case b.T == "false":
+			return Val{T: fmt.Sprintf("(and %s %s)", c, a.T), S: "Bool"}
+		}
+	}
 	return Val{T: fmt.Sprintf("(ite %s %s %s)", c, a.T, b.T), S: a.S}
 }
 
@@ -1153,6 +1181,22 @@ func (p *Pure) call(c *ssa.Call, mode int) Val {
 	if o := callee.Origin(); o != nil && o.Name() == "__vc_sliceoff" {
 		x, y := p.term(com.Args[0], mode), p.term(com.Args[1], mode)
 		return Val{T: fmt.Sprintf("(- (s.off %s) (s.off %s))", x.T, y.T), S: "Int"}
+	}
+	if o := callee.Origin(); o != nil && o.Name() == "__vc_lastload" {
+		x := p.term(com.Args[0], mode)
+		if x.Loc != nil {
+			x = p.env.materialize(x)
+		}
+		p.env.e.regHeap("lastload", "Ref")
+		return Val{T: fmt.Sprintf("(= %s %s)", p.state(mode).get("lastload"), x.T), S: "Bool"}
+	}
+	if o := callee.Origin(); o != nil && o.Name() == "__vc_newarray" {
+		x := p.term(com.Args[0], mode)
+		old := p.cur
+		if p.old != nil {
+			old = p.old
+		}
+		return Val{T: fmt.Sprintf("(not (select %s (s.arr %s)))", old.get("allocA"), x.T), S: "Bool"}
 	}
 	if o := callee.Origin(); o != nil && o.Name() == "__vc_samearray" {
 		x, y := p.term(com.Args[0], mode), p.term(com.Args[1], mode)
